@@ -319,7 +319,8 @@ def evaluate_payload_template(input, context, template):
                     result.append(template_string[i + 1])
                     i += 2
                 elif template_string.startswith("{}", i) and used < len(args):
-                    result.append(args[used] if isinstance(args[used], str) else str(args[used]))
+                    # Values other than strings are rendered as JSON text (true, null, ...)
+                    result.append(args[used] if isinstance(args[used], str) else json.dumps(args[used]))
                     used += 1
                     i += 2
                 elif c in "{}\\":
